@@ -51,6 +51,7 @@ type Exec struct {
 	sweep        int
 	sweepFn      *ssa.Function
 	missingDone  map[*ssa.Function]bool
+	rootReader   *IfaceV // the io.Reader / io.ReadWriter parameter of the verified function, if any
 	notes        map[string]int
 	root         *ssa.Function
 	rootName     string
